@@ -153,3 +153,4 @@ _add("C14", "path-wise coverage of the three equality functions with a frozen fi
 _add("C17", "comparisons with index seconds have seconds on the other side (unit rule).")
 _add("C19", "gin: every path through the blocked branch aborts the context or hands over to the fallback.")
 _add("C20", "the outlier lookups answer from the enforced maps alone.")
+_add("C15", "every Lock / RLock acquisition in the module is released (or its release deferred) on every path to the function's end.")
